@@ -362,8 +362,13 @@ func calcStatusCode(cfg *ResponseConfig, a *asset, segmentPart string, nowMS int
 		// Use nowMS = cycleStart to look up the latest segment published at that time
 		firstNr := cfg.getStartNr()
 		if nrWraps > 0 {
-			lastNr := findLastSegNr(cfg, a, wrapStartS*1000, segMeta.rep)
-			firstNr = lastNr + 1
+			// wrapStartS is media time, counted from availabilityStartTime, and lastNr counts
+			// the segments from 0: move to wall-clock time and to the configured start number.
+			lastNr := findLastSegNr(cfg, a, (cfg.StartTimeS+wrapStartS)*1000, segMeta.rep)
+			if lastNr < 0 { // no segment has ended at the cycle start (cycle shorter than the first segment)
+				lastNr = -1
+			}
+			firstNr = cfg.getStartNr() + lastNr + 1
 		}
 		segTime := findSegStartTime(a, cfg, firstNr, segMeta.rep)
 		if segTime < wrapStartS*repTimescale {
